@@ -391,6 +391,7 @@ func (s *vfSM) modelSet(op *vfOp, ok bool, observedUpd bool, now time.Time, vs *
 		}
 	}
 	s.deleted[op.Key] = false
+	delete(s.swept, op.Key)
 	if ok && room {
 		if kind == pNew {
 			ti.state = tPending
@@ -668,6 +669,7 @@ func (s *vfSM) sweepEvict(e vfCB, now time.Time, vs *[]*vfViol, midSweep bool) {
 	}
 	s.gone(ent.tok)
 	delete(s.resident, e.key)
+	s.swept[e.key] = true
 }
 
 // ---- the actions ----
@@ -825,6 +827,17 @@ func (s *vfSM) exec(op *vfOp) (vs []*vfViol) {
 		for k, e := range s.resident {
 			if !e.exp.IsZero() && e.exp.Before(lim) {
 				s.add(&vs, vfV("C14", "expired-entry-not-reclaimed", "value %d (key %d) expired at %v and is still held (and charged) at %v after two sweeps with an idle applier", e.tok, k, e.exp.Format("15:04:05"), time.Now().Format("15:04:05")))
+			}
+		}
+		// "its capacity released": a key whose entry expiry processing removed, and which was not written again,
+		// is no longer charged once writes have drained
+		pk := s.policyKeys()
+		for _, k := range vfSortedU64(s.swept) {
+			if _, in := s.resident[k]; in || !s.swept[k] {
+				continue
+			}
+			if c, charged := pk[k]; charged {
+				s.add(&vs, vfV("C14", "capacity-of-expired-entry-not-released", "key %d: its entry was removed by expiry processing and not written since, writes have drained, yet %d units of capacity are still charged to it", k, c))
 			}
 		}
 		s.checkWaiters(&vs, "C06")
@@ -1044,6 +1057,7 @@ func (s *vfSM) doClear(live bool, vs *[]*vfViol) {
 	s.exempt = false
 	s.tainted = map[uint64]bool{}
 	s.deleted = map[uint64]bool{}
+	s.swept = map[uint64]bool{}
 	s.mGets, s.mHits, s.mDropped = 0, 0, 0
 	s.st.clears++
 	// C15: fresh after Clear
